@@ -48,6 +48,7 @@ package main
 // wiring fact of main (startHTTPServer passes the sandbox it was given), assumed at the handler's entry
 //@   requires sandbox != nil && (typeis(sandbox, *rapidcore.EmulatorAPI) ==> sandbox.(*rapidcore.EmulatorAPI) != nil)
 //@   requires w != nil && r != nil
+//@   ensures [C10: the-one-off-initialisation-runs-with-the-cold-start-mutex-held] delta(ColdStartInit) <= 1 && (delta(ColdStartInit) == 1 ==> delta(FrontendLock) >= 1 && delta(FrontendUnlock) >= 1 && first(FrontendLock) < first(ColdStartInit) && first(ColdStartInit) < first(FrontendUnlock))
 //@   ensures [at-most-one-invoke] delta(SandboxInvoke) <= 1 && (readFails(r.Body) ==> delta(SandboxInvoke) == 0 && ghost(httpStatus) == 500)
 //@   ensures [payload-is-the-request-body] delta(SandboxInvoke) == 1 ==> readerContent(lastarg(SandboxInvoke, 2).Payload) == readerContent(r.Body) && readerLen(lastarg(SandboxInvoke, 2).Payload) == readerLen(r.Body) && typeis(lastarg(SandboxInvoke, 1), *ResponseWriterProxy) && fresh(proxyOf(lastarg(SandboxInvoke, 1))) && fresh(lastarg(SandboxInvoke, 2))
 //@   ensures [answer-is-what-the-sandbox-wrote] delta(SandboxInvokeOK) == 1 ==> ghost(httpLastWriter) == ref(w) && ghost(httpLastContent) == contentOf(proxyOf(lastarg(SandboxInvoke, 1)).Body) && ghost(httpLastLen) == len(proxyOf(lastarg(SandboxInvoke, 1)).Body) && ghost(httpWrites) == old(ghost(httpWrites)) + 1 && (proxyOf(lastarg(SandboxInvoke, 1)).StatusCode != 0 ==> ghost(httpStatus) == proxyOf(lastarg(SandboxInvoke, 1)).StatusCode)
@@ -58,3 +59,8 @@ package main
 // C10: the front end's handler runs once per HTTP request, concurrently: the package variable that says whether the one-off
 // initialisation was done is read and written under a package-level mutex (two callers at cold start must not both run Init)
 //@ globallock initDone by initMutex
+// ... and the initialisation itself runs inside that critical section: a caller that finds the flag set may rely on Init having
+// been called (it goes straight on to Invoke)
+//@ event ColdStartInit = call cmd/aws-lambda-rie.InitHandler
+//@ event FrontendLock = call sync.(*Mutex).Lock
+//@ event FrontendUnlock = call sync.(*Mutex).Unlock
